@@ -74,7 +74,7 @@ class address_offsets:
     """for exactly the PT_LOAD segments that wholly contain [start, start+size):
     start - p_vaddr + p_offset, in segment order"""
     params = dict(self=ELFFileT(_section_header_stringtable=Opt(SectionT('StringTableSection'))), start=U64, size=U64)
-    requires = ELFFILE_INV + ["self.header.e_shoff <= self.stream_len"]
+    requires = ELFFILE_INV
     yield_shape = Int
     # step: an iteration yields exactly when its segment wholly contains the range -- with the enumeration's own step clause
     # (every index is visited, a segment is passed on exactly when its type matches) this is the completeness half of
@@ -87,7 +87,7 @@ class address_offsets:
                   " 0, max(0, nseg(self)))"]
     # the enumeration is consumed to its end: the function does not return from inside the loop
     ensures = ["@check $k0 == gen_len($seq0)"]
-    may_raise = ["ELFError", "OverflowError", "TypeError"]     # TypeError: PN_XNUM and a section 0 whose link lies beyond the file
+    may_raise = ["ELFError", "OverflowError", "TypeError", "AttributeError"]     # TypeError: PN_XNUM and a section 0 whose link lies beyond the file
 from specs.contents import inflated, inflatable, zeros, inflated_len
 
 SHF_COMPRESSED = 0x800
